@@ -198,4 +198,15 @@ CHECKS['C12'] = {
     'assumptions': ['the engine object model is the memory-safety oracle (freed / dead stack / out of bounds / null / invalid call); confirmed natively under ASan+UBSan+_GLIBCXX_ASSERTIONS'],
 }
 
+CHECKS['C19'] = {
+    'jobs': {'quick': [J('c19_pcap.cpp', ['LEN=4'], wall=200, markers=(1, 2))],
+             'thorough': [J('c19_pcap.cpp', ['LEN=8'], wall=900, markers=(1, 2))]},
+    'bounds': {'quick': '1-2 UDP datagrams (1-3 symbolic bytes, both directions) and one TCP connection carrying 4 symbolic bytes in 2-byte segments with the first segment passed or dropped (retransmission), then closed; '
+                        'network latency 1 ms or 1.5 s (timestamps across a second boundary); the capture is re-read by an independent parser: file header, one record per probe-observed transmission in order, timestamps, lengths, '
+                        'IPv4/UDP/TCP header fields, sequence numbers, payload bytes',
+               'thorough': '8 TCP bytes'},
+    'outside': ['IPv6 traffic (the property is about IPv4)', 'several connections', 'more records than ~12'],
+    'assumptions': ['std::fstream is modelled: bytes written through ostream::write are appended to an engine-side file; the native replay reads the real file'],
+}
+
 NOT_APPLICABLE = {}
